@@ -1,8 +1,86 @@
-(* C16 — theorems are added below as the proofs are completed; see DESIGN.md *)
+(* C16 — edge recomputation touches only burst edges and only grows bursts.
+   Model: Model/Edges.v.  is_edge lab i: cycle i is the non-burst cycle immediately before or
+   after a burst (located from the transitions of the label column).  The growth theorem uses the
+   binary64 threshold order (Flocq); the frame / value / labelling theorems are structural. *)
 From Coq Require Import List Arith Bool ZArith Floats.PrimFloat.
 Import ListNotations.
-From ByC Require Import Base.Result Model.Edges.
+From ByC Require Import Base.Result Base.FloatBase Model.Runs Model.Labels Model.BurstFeat Model.Edges
+  Proofs.Labels Proofs.LabelsOrder Proofs.Edges.
 
-Theorem C16_placeholder_edges_come_in_pairs : forall s e t, edge_pairs (s :: e :: t) = (s, S e) :: edge_pairs t.
-Proof. reflexivity. Qed.
-Print Assumptions C16_placeholder_edges_come_in_pairs.
+(* edges are non-burst cycles adjacent to a burst *)
+Theorem C16_edges_are_nonburst_cycles : forall lab i,
+  nth 0 lab false = false -> is_edge lab i -> nth i lab false = false.
+Proof. exact is_edge_not_burst. Qed.
+Print Assumptions C16_edges_are_nonburst_cycles.
+
+Theorem C16_edges_are_adjacent_to_a_burst : forall lab i,
+  nth 0 lab false = false -> is_edge lab i ->
+  nth (S i) lab false = true \/ (1 <= i /\ nth (i - 1) lab false = true).
+Proof. exact is_edge_adjacent. Qed.
+Print Assumptions C16_edges_are_adjacent_to_a_burst.
+
+(* frame: a cell differs from the input only if its column is amp/period consistency and its row
+   is a burst edge; everything else (and the row count) is unchanged *)
+Theorem C16_frame : forall (X : Type) peak (rows out : list (@edrow X)),
+  recompute_all peak rows = Ok out ->
+  length out = length rows /\
+  forall j r, nth_error rows j = Some r ->
+    exists r', nth_error out j = Some r' /\
+      e_rise r' = e_rise r /\ e_decay r' = e_decay r /\ e_period r' = e_period r /\
+      e_lab r' = e_lab r /\ e_x r' = e_x r /\
+      f_af (e_feat r') = f_af (e_feat r) /\ f_mo (e_feat r') = f_mo (e_feat r) /\
+      (~ is_edge (map e_lab rows) j -> r' = r).
+Proof. exact @recompute_all_frame. Qed.
+Print Assumptions C16_frame.
+
+(* the new value at an edge is the ONE-SIDED consistency (next or last) computed on the original
+   table, or NaN at either end of the table *)
+Theorem C16_edge_values_are_one_sided : forall (X : Type) peak (rows out : list (@edrow X)) j,
+  recompute_all peak rows = Ok out -> is_edge (map e_lab rows) j ->
+  exists r', nth_error out j = Some r' /\
+    ((1 <= j /\ j + 1 < length rows /\
+      exists d, (d = Next \/ d = Last) /\
+        f_ac (e_feat r') = clamp0 (amp_cons_at peak d (map e_rise rows) (map e_decay rows) j) /\
+        f_pc (e_feat r') = period_cons_at d (map e_period rows) j) \/
+     ((j = 0 \/ j + 1 = length rows) /\
+      isnan (f_ac (e_feat r')) = true /\ isnan (f_pc (e_feat r')) = true)).
+Proof. exact @recompute_all_edge_value. Qed.
+Print Assumptions C16_edge_values_are_one_sided.
+
+(* the new labels are the threshold-and-run rule applied to the edited table; nothing else changes *)
+Theorem C16_relabelled_by_the_rule : forall (X : Type) peak t n (rows out : list (@edrow X)) d,
+  recompute_edges peak t n rows = Ok out ->
+  exists ed lab, recompute_all peak rows = Ok ed /\ labels_cycles t n (map e_feat ed) = Ok lab /\
+    length out = length rows /\
+    forall j, j < length rows ->
+      e_lab (nth j out d) = nth j lab false /\
+      e_feat (nth j out d) = e_feat (nth j ed d) /\
+      e_rise (nth j out d) = e_rise (nth j rows d) /\
+      e_decay (nth j out d) = e_decay (nth j rows d) /\
+      e_period (nth j out d) = e_period (nth j rows d) /\
+      e_x (nth j out d) = e_x (nth j rows d).
+Proof. exact @recompute_edges_spec. Qed.
+Print Assumptions C16_relabelled_by_the_rule.
+
+(* growth: with unchanged or lowered thresholds every previously bursting cycle stays bursting *)
+Theorem C16_bursts_only_grow : forall (X : Type) peak t0 n0 t n (rows out : list (@edrow X)),
+  labels_cycles t0 n0 (map e_feat rows) = Ok (map e_lab rows) ->
+  thr_finite t -> thr_finite t0 -> thr_le t t0 -> (n <= n0)%Z ->
+  recompute_edges peak t n rows = Ok out ->
+  forall j, nth j (map e_lab rows) false = true -> nth j (map e_lab out) false = true.
+Proof. exact @recompute_edges_grows. Qed.
+Print Assumptions C16_bursts_only_grow.
+
+(* non-vacuity: a table meeting the hypotheses on which the burst strictly grows *)
+Theorem C16_growth_nonvacuous :
+  labels_cycles ex_t 2 (map e_feat ex_rows) = Ok (map e_lab ex_rows) /\
+  thr_finite ex_t /\ thr_le ex_t ex_t /\
+  map e_lab ex_rows = [false; true; true; false; false] /\
+  rmap (map (@e_lab nat)) (recompute_edges true ex_t 2 ex_rows) = Ok [false; true; true; true; false].
+Proof. exact recompute_edges_grows_nonvacuous. Qed.
+Print Assumptions C16_growth_nonvacuous.
+
+(* Legacy: the pre-repair behaviour (lost chained write: only re-thresholding) differs *)
+Theorem C16_legacy_refuted : recompute_edges_legacy true ex_t 2 ex_rows <> recompute_edges true ex_t 2 ex_rows.
+Proof. exact recompute_edges_legacy_refuted. Qed.
+Print Assumptions C16_legacy_refuted.
